@@ -27,6 +27,7 @@ import (
 	"github.com/prometheus/alertmanager/marker"
 	"github.com/prometheus/alertmanager/notify"
 	"github.com/prometheus/alertmanager/pkg/labels"
+	"github.com/prometheus/alertmanager/provider"
 	"github.com/prometheus/alertmanager/provider/mem"
 	"github.com/prometheus/alertmanager/types"
 
@@ -56,6 +57,7 @@ type Op struct {
 	End     int64  `json:"end,omitempty"`     // put: EndsAt = now + end (negative or 0: already resolved)
 	NoEnd   bool   `json:"noend,omitempty"`   // put: EndsAt is the zero time
 	Timeout bool   `json:"timeout,omitempty"` // put: Alert.Timeout flag (only matters to the provider's merge)
+	Pend    []Op   `json:"pend,omitempty"`    // reload: puts published after the new inhibitor subscribed and before it processed the snapshot
 }
 
 type Case struct {
@@ -63,7 +65,41 @@ type Case struct {
 	Lsets      []map[string]string `json:"lsets"`
 	ProviderGC int64               `json:"provider_gc"`
 	Pre        int                 `json:"pre"` // the first Pre ops run before the inhibitor is started (it slurps the result)
+	StartPend  []Op                `json:"start_pend,omitempty"` // like Op.Pend, for the initial start
 	Ops        []Op                `json:"ops"`
+}
+
+// loadProvider wraps the real provider so that "updates arrive while a new inhibitor is loading" is deterministic:
+// SlurpAndSubscribe / Subscribe call the real method and then, before returning to the inhibitor, run onSubscribe
+// (which Puts on the real provider: these updates are queued on the fresh subscription behind nothing, while the
+// snapshot the inhibitor is about to process still holds the older versions).
+type loadProvider struct {
+	*mem.Alerts
+	onSubscribe func(snapshot []*types.Alert)
+}
+
+func (p *loadProvider) SlurpAndSubscribe(name string) ([]*types.Alert, provider.AlertIterator) {
+	snapshot, it := p.Alerts.SlurpAndSubscribe(name)
+	if f := p.onSubscribe; f != nil {
+		p.onSubscribe = nil
+		f(snapshot)
+	}
+	return snapshot, it
+}
+
+func (p *loadProvider) Subscribe(name string) provider.AlertIterator {
+	var snapshot []*types.Alert
+	pit := p.Alerts.GetPending()
+	for a := range pit.Next() {
+		snapshot = append(snapshot, a.Data)
+	}
+	pit.Close()
+	it := p.Alerts.Subscribe(name)
+	if f := p.onSubscribe; f != nil {
+		p.onSubscribe = nil
+		f(snapshot)
+	}
+	return it
 }
 
 var mtypes = map[string]labels.MatchType{"=": labels.MatchEqual, "!=": labels.MatchNotEqual, "=~": labels.MatchRegexp, "!~": labels.MatchNotRegexp}
@@ -166,23 +202,52 @@ func genCase(r *vh.Rand, maxOps int) Case {
 		c.Lsets = append(c.Lsets, m)
 	}
 	n := r.Range(3, maxOps)
-	if r.Chance(1, 4) {
-		c.Pre = r.Range(1, 3)
+	if r.Chance(1, 3) {
+		c.Pre = r.Range(1, 4)
+	}
+	var putL []int // label sets put so far
+	genPut := func(op *Op, preferKnown bool) {
+		op.Kind = "put"
+		op.L = r.Intn(nl)
+		if preferKnown && len(putL) > 0 && r.Chance(3, 4) {
+			op.L = vh.Pick(r, putL)
+		}
+		op.Start = vh.Pick(r, startsB)
+		op.End = vh.Pick(r, ends)
+		op.NoEnd = r.Chance(1, 20)
+		op.Timeout = r.Chance(1, 4)
+	}
+	// updates that arrive while a new inhibitor loads: resolves / refreshes / re-fires of what the provider
+	// holds, and brand-new alerts
+	genPend := func() []Op {
+		var out []Op
+		for k := vh.Pick(r, []int{0, 1, 1, 2, 2, 3}); k > 0; k-- {
+			var op Op
+			genPut(&op, true)
+			out = append(out, op)
+		}
+		for _, op := range out {
+			putL = append(putL, op.L)
+		}
+		return out
+	}
+	if c.Pre == 0 {
+		c.StartPend = genPend()
 	}
 	for i := 0; i < n; i++ {
 		op := Op{Dt: vh.Pick(r, dts)}
+		if i == c.Pre && c.Pre > 0 {
+			c.StartPend = genPend()
+		}
 		switch k := r.Intn(20); {
-		case k < 15 || i < c.Pre:
-			op.Kind = "put"
-			op.L = r.Intn(nl)
-			op.Start = vh.Pick(r, startsB)
-			op.End = vh.Pick(r, ends)
-			op.NoEnd = r.Chance(1, 20)
-			op.Timeout = r.Chance(1, 4)
-		case k < 19:
+		case k < 14 || i < c.Pre:
+			genPut(&op, false)
+			putL = append(putL, op.L)
+		case k < 17:
 			op.Kind = "tick"
 		default:
 			op.Kind = "reload"
+			op.Pend = genPend()
 		}
 		c.Ops = append(c.Ops, op)
 	}
@@ -241,6 +306,7 @@ func runCase(t *testing.T, c *Case) result {
 			t.Fatal(err)
 		}
 		defer prov.Close()
+		lprov := &loadProvider{Alerts: prov}
 
 		// rules: the real configuration type for the inhibitor, and the same matchers for the direct oracle
 		var cfg []amcommoncfg.InhibitRule
@@ -263,6 +329,7 @@ func runCase(t *testing.T, c *Case) result {
 		var ih *inhibit.Inhibitor
 		var gcNext int64
 		lastUpd := map[int]*types.Alert{}  // label set index -> latest stored update (what the inhibitor was sent)
+		loadPend := map[int]bool{} // label set index -> its latest update was published while the running inhibitor was loading
 		gcSince := map[int]bool{}          // label set index -> an inhibitor GC ran at or after the instant its latest update became resolved
 		nowNs := func() int64 { return time.Now().UnixNano() }
 
@@ -400,7 +467,15 @@ func runCase(t *testing.T, c *Case) result {
 								}
 							}
 						}
+						lostDuringLoad := false
+						for _, s := range firing {
+							if loadPend[fpIdx[s.Fingerprint()]] && r.src.Matches(s.Labels) && r.eqOn(s.Labels, ls) && !(r.src.Matches(ls) && r.tgt.Matches(s.Labels)) {
+								lostDuringLoad = true
+							}
+						}
 						switch {
+						case lostDuringLoad:
+							key = "update-during-load-lost"
 						case twoSidedFiring:
 							key = "two-sided-indexed-hides-one-sided-source"
 						case resolvedCached:
@@ -412,7 +487,17 @@ func runCase(t *testing.T, c *Case) result {
 					}
 					violate(key, fmt.Sprintf("%s at %s: %v is a target and a firing source with equal labels exists (e.g. label set #%d) but Mutes says false", opDesc, now.UTC().Format(time.RFC3339), ls, firstKey(witness)))
 				case !want && muted:
-					violate("inhibited-without-firing-source", fmt.Sprintf("%s at %s: Mutes(%v) is true but no firing alert inhibits it under any rule", opDesc, now.UTC().Format(time.RFC3339), ls))
+					key := "inhibited-without-firing-source"
+					for k, a := range lastUpd {
+						if loadPend[k] && a.ResolvedAt(now) {
+							for _, r := range rules {
+								if r.tgt.Matches(ls) && r.src.Matches(a.Labels) && r.eqOn(a.Labels, ls) {
+									key = "update-during-load-lost"
+								}
+							}
+						}
+					}
+					violate(key, fmt.Sprintf("%s at %s: Mutes(%v) is true but no firing alert inhibits it under any rule", opDesc, now.UTC().Format(time.RFC3339), ls))
 				case want && muted && byIdx >= 0 && !witness[byIdx]:
 					violate("inhibitedBy-not-a-witness", fmt.Sprintf("%s: Mutes(%v) reports inhibitedBy label set #%d which is not a firing source with equal labels", opDesc, ls, byIdx))
 				}
@@ -467,26 +552,106 @@ func runCase(t *testing.T, c *Case) result {
 			hist = append(hist, fmt.Sprintf("(%s, %s, %s)", vh.Z(now), xop, obs))
 		}
 
-		start := func(why string) {
-			slurp := provAlerts()
-			ih = inhibit.NewInhibitor(prov, cfg, nopLogger, eventrecorder.NopRecorder())
+		// mkAlert builds the alert of a put op at the current virtual instant
+		mkAlert := func(op *Op) *types.Alert {
+			now := time.Now()
+			a := &types.Alert{Alert: model.Alert{Labels: lsets[op.L].Clone(), StartsAt: now.Add(-time.Duration(op.Start))}, UpdatedAt: now, Timeout: op.Timeout}
+			if !op.NoEnd {
+				a.EndsAt = now.Add(time.Duration(op.End))
+				if a.EndsAt.Before(a.StartsAt) {
+					a.StartsAt = a.EndsAt
+				}
+			}
+			return a
+		}
+		coqEntry := func(a *types.Alert) string {
+			return "(" + strings.Join([]string{vh.Z(int64(fpIdx[a.Fingerprint()])), vh.Z(znano(a.StartsAt)), vh.Z(znano(a.EndsAt)), vh.Z(znano(a.UpdatedAt))}, ", ") + ")"
+		}
+		isSource := func(ls model.LabelSet) bool {
+			for _, r := range rules {
+				if r.src.Matches(ls) {
+					return true
+				}
+			}
+			return false
+		}
+		resolvedAtRestart := map[int]bool{} // sources the running inhibitor first saw as resolved (in its snapshot)
+		var firstGCAfterRestart int64
+
+		// start a NEW inhibitor; pend is published on the provider after the inhibitor subscribed (snapshot taken)
+		// and before it has processed anything
+		start := func(why string, pend []Op) {
+			var snapTerms, pendTerms []string
+			lprov.onSubscribe = func(snapshot []*types.Alert) {
+				now := time.Now()
+				inSnap := map[int]*types.Alert{}
+				resolvedAtRestart = map[int]bool{}
+				loadPend = map[int]bool{}
+				for _, a := range snapshot {
+					k := fpIdx[a.Fingerprint()]
+					inSnap[k] = a
+					snapTerms = append(snapTerms, coqEntry(a))
+					res.tags["snapshot-alert"]++
+					if a.ResolvedAt(now) {
+						res.tags["snapshot-holds-resolved-alert"]++
+						if isSource(a.Labels) {
+							resolvedAtRestart[k] = true
+						}
+					}
+				}
+				for i := range pend {
+					a := mkAlert(&pend[i])
+					if err := prov.Put(ctx, a); err != nil {
+						t.Fatalf("Put during load: %v", err)
+					}
+					stored, err := prov.Get(a.Fingerprint())
+					if err != nil {
+						t.Fatalf("Get after Put during load: %v", err)
+					}
+					k := pend[i].L
+					kind := "new-alert"
+					if old, ok := inSnap[k]; ok {
+						switch or, nr := old.ResolvedAt(now), stored.ResolvedAt(now); {
+						case !or && nr:
+							kind = "resolve-of-snapshot-alert"
+						case or && !nr:
+							kind = "refire-of-resolved-snapshot-alert"
+						case or && nr:
+							kind = "resolved-again"
+						case stored.EndsAt.After(old.EndsAt) || (stored.EndsAt.IsZero() && !old.EndsAt.IsZero()):
+							kind = "refresh-with-later-end"
+						case stored.EndsAt.Before(old.EndsAt) || old.EndsAt.IsZero():
+							kind = "refresh-with-earlier-end"
+						default:
+							kind = "refresh-same-end"
+						}
+					}
+					if isSource(stored.Labels) {
+						kind += "(source)"
+					}
+					res.tags["during-load:"+kind]++
+					inSnap[k] = stored
+					lastUpd[k] = stored
+					gcSince[k] = false
+					loadPend[k] = true
+					pendTerms = append(pendTerms, coqEntry(stored))
+				}
+			}
+			ih = inhibit.NewInhibitor(lprov, cfg, nopLogger, eventrecorder.NopRecorder())
 			go ih.Run()
 			synctest.Wait()
 			ih.WaitForLoading()
+			if lprov.onSubscribe != nil {
+				t.Fatalf("the inhibitor did not subscribe to the provider")
+			}
 			now := nowNs()
 			gcNext = now + gcInterval
-			record(now, "XReset", "None")
-			for i, a := range slurp {
-				obs := "None"
-				if i == len(slurp)-1 {
-					obs = observe(why)
-				}
-				record(now, coqPut(fpIdx[a.Fingerprint()], a), obs)
-				res.tags["slurped-alert"]++
+			firstGCAfterRestart = gcNext
+			res.tags["restart"]++
+			if len(pend) > 0 {
+				res.tags["restart-with-updates-during-load"]++
 			}
-			if len(slurp) == 0 {
-				record(now, "XTick", observe(why))
-			}
+			record(now, vh.App("XRestart", vh.List(snapTerms), vh.List(pendTerms)), observe(why))
 		}
 		stop := func() {
 			ih.Stop()
@@ -516,25 +681,19 @@ func runCase(t *testing.T, c *Case) result {
 		}
 
 		if c.Pre == 0 {
-			start("start")
+			start("start", c.StartPend)
 		}
 		for i := range c.Ops {
 			op := &c.Ops[i]
 			if ih == nil && i == c.Pre {
-				start("start after pre-existing alerts")
+				start("start after pre-existing alerts", c.StartPend)
 			}
 			advance(op.Dt)
 			now := time.Now()
 			desc := fmt.Sprintf("op %d (%s)", i, op.Kind)
 			switch op.Kind {
 			case "put":
-				a := &types.Alert{Alert: model.Alert{Labels: lsets[op.L].Clone(), StartsAt: now.Add(-time.Duration(op.Start))}, UpdatedAt: now, Timeout: op.Timeout}
-				if !op.NoEnd {
-					a.EndsAt = now.Add(time.Duration(op.End))
-					if a.EndsAt.Before(a.StartsAt) {
-						a.StartsAt = a.EndsAt
-					}
-				}
+				a := mkAlert(op)
 				if err := prov.Put(ctx, a); err != nil {
 					t.Fatalf("Put: %v", err)
 				}
@@ -545,32 +704,41 @@ func runCase(t *testing.T, c *Case) result {
 				}
 				lastUpd[op.L] = stored
 				gcSince[op.L] = false
+				delete(loadPend, op.L)
 				if stored.ResolvedAt(now) {
 					res.tags["put-resolved"]++
 				} else {
 					res.tags["put-firing"]++
+					if ih != nil && resolvedAtRestart[op.L] && now.UnixNano() < firstGCAfterRestart {
+						res.tags["source-resolved-at-restart-refires-before-first-gc"]++
+					}
 				}
+				delete(resolvedAtRestart, op.L)
 				if !stored.EndsAt.Equal(a.EndsAt) || !stored.StartsAt.Equal(a.StartsAt) {
 					res.tags["put-merged-by-provider"]++
 				}
+				obs := "None" // before the first start there is no inhibitor to observe
 				if ih != nil {
-					record(now.UnixNano(), coqPut(op.L, stored), observe(desc))
+					obs = observe(desc)
+				} else {
+					res.tags["put-before-first-start"]++
 				}
+				record(now.UnixNano(), coqPut(op.L, stored), obs)
 			case "tick":
 				res.tags["tick"]++
 				if ih != nil {
 					record(now.UnixNano(), "XTick", observe(desc))
 				}
 			case "reload":
-				res.tags["reload"]++
 				if ih != nil {
+					res.tags["reload"]++
 					stop()
-					start(desc)
+					start(desc, op.Pend)
 				}
 			}
 		}
 		if ih == nil {
-			start("start after all ops")
+			start("start after all ops", c.StartPend)
 		}
 		stop()
 		prov.Close()
